@@ -16,7 +16,7 @@ package reassembly
 
 //@ func (s Sequence) Add(t int) Sequence
 //@   props C09
-//@   requires isSeq(s) && -4611686018427387904 < t && t < 4611686018427387904
+//@   requires isSeq(s)
 //@   ensures isSeq(result) && result == (s + t) % 4294967296
 //@   modifies nothing
 
@@ -32,3 +32,20 @@ func verifLemmaSeq(s, t Sequence, n int) (antisym, zero, shift bool) {
 	shift = s.Difference(t.Add(n)) == s.Difference(t)+n
 	return
 }
+
+// addPending keeps the saved bytes exactly when they are continuous with the first new byte modulo 2^32.
+//@ func (a *Assembler) addPending(half *halfconnection, firstSeq Sequence) int
+//@   props C09
+//@   requires half.saved != nil ==> isSeq(half.saved.seq)
+//@   ensures result == 0 || (old(half.saved.seq) + result) % 4294967296 == firstSeq
+//@   loop 1: invariant (old(half.saved.seq) + s) % 4294967296 != firstSeq
+
+// checkOverlap, case 6 (new bytes lie inside a queued page): byte k of the packet (sequence start+k) replaces
+// byte (start - cur.seq) + k of that page. Page sequence numbers are in range (assumed heap invariant).
+//@ func (a *Assembler) checkOverlap(half *halfconnection, queue bool, ac AssemblerContext)
+//@   props C09
+//@   requires forall r int :: isSeq(heap(page.seq, r))
+//@   requires isSeq(a.cacheLP.seq)
+//@   loop 0: invariant forall r int :: isSeq(heap(page.seq, r))
+//@   at copy 0: assert arg0.arr == cur.bytes.arr
+//@   at copy 0: assert -1073741824 < sdiff32(cur.seq, start) && sdiff32(cur.seq, start) < 1073741824 ==> arg0.off == cur.bytes.off + sdiff32(cur.seq, start)
